@@ -200,6 +200,47 @@ def run(tier, seed):
                     viol.append({"world": "gap%d" % i, "why": "after the late failure of the first copy: members missing or not sharing an inode (rc=%s)" % rr["rc"], "klass": None})
                 owner_failed += 1 if rr["rc"] != 0 else 0
             shutil.rmtree(base, ignore_errors=True)
+        # destination files at or above the size from which sy rebuilds through a working file on its own (10 MB, no hook here), with a
+        # second name: (a) a member of a group that leaves the group and shrinks / grows / keeps its size, (b) a cp -al snapshot of a
+        # plain file.  The other name must keep its bytes; the classes must follow the source.
+        nb = 3 if tier == "quick" else 12
+        big_runs = 0
+        env_old = dict(sc.env)
+        sc.env.pop("SY_VERIF_DELTA_THRESHOLD", None)
+        for i in range(nb):
+            base = os.path.join(sc.dir, "b%d" % i)
+            src, dst, snapd = base + "/src", base + "/dst", base + "/snap"
+            big = 11_000_000 + 4096 * r.randrange(0, 200)
+            newsize = [1_000_000 + r.randrange(0, 5000), big, big + 3_000_000][i % 3]
+            world.mk_tree(src, [{"p": "a.bin", "k": "f", "data": ("rand", 900 + i, big), "mt": 10}, {"p": "b.bin", "k": "h", "to": "a.bin"},
+                                {"p": "c.bin", "k": "f", "data": ("rand", 950 + i, big), "mt": 11}])
+            os.makedirs(dst); os.makedirs(snapd)
+            hl = ["-H"] if i % 2 == 0 else []
+            rr = world.run_sy([src, dst, "-q"] + hl, sc, timeout=60)
+            os.link(dst + "/c.bin", snapd + "/c.bin")
+            keep = {"snap": world.sha(snapd + "/c.bin"), "a": world.sha(src + "/a.bin")}
+            os.remove(src + "/b.bin")
+            for nm, sd in (("b.bin", 1), ("c.bin", 2)):
+                with open(os.path.join(src, nm), "wb") as f:
+                    f.write(world.pbytes(7000 + 10 * i + sd, newsize))
+                os.utime(os.path.join(src, nm), ns=((world.T0 + 9000 + sd) * 10**9,) * 2)
+            rr2 = world.run_sy([src, dst, "-q"] + hl, sc, timeout=60)
+            big_runs += 1
+            s_snap, d_snap = world.snapshot(src), world.snapshot(dst)
+            why = []
+            if rr["rc"] != 0 or rr2["rc"] != 0:
+                why.append("rc=%s/%s" % (rr["rc"], rr2["rc"]))
+            if world.sha(snapd + "/c.bin") != keep["snap"]:
+                why.append("the cp -al snapshot of c.bin (%d bytes) changed when c.bin was updated to %d bytes" % (big, newsize))
+            bad = [p_ for p_, e in s_snap.items() if e["kind"] == "f" and (d_snap.get(p_) or {}).get("sha") != e["sha"]]
+            if bad:
+                why.append("content differs from the source for %r (b.bin left the group and was rewritten; a.bin was never touched)" % bad)
+            if hl and inode_classes({k: v for k, v in d_snap.items() if k != "c.bin"}) != inode_classes({k: v for k, v in s_snap.items() if k != "c.bin"}):
+                why.append("destination inode classes differ from the source's after b.bin left its group")
+            if why:
+                viol.append({"world": "big%d" % i, "sizes": [big, newsize], "flags": hl, "why": "; ".join(why), "klass": None})
+            shutil.rmtree(base, ignore_errors=True)
+        sc.env.clear(); sc.env.update(env_old)
     # model-level exploration statistics (kernel-evaluated), recorded as support
     stats = vlib.coq_eval_list("From Coq Require Import List. Import ListNotations.\nFrom SyModel Require Import Hardlink.",
                                "List.map (fun n => length (fst (explore 400000 false true true [] [init n]))) [1;2;3]", tag="c13")
@@ -209,6 +250,7 @@ def run(tier, seed):
     res.cov["fault_runs"] = nf
     res.cov["fault_runs_hung"] = hangs
     res.cov["late_failure_gap_runs"] = ng
+    res.cov["big_destination_second_name_runs"] = big_runs
     res.cov["late_failure_gap_runs_hung"] = gap_hangs
     res.cov["late_failure_gap_runs_where_the_failing_member_owned"] = owner_failed
     res.cov["known_finding_hits"] = {k: len(v) for k, v in hits.items()}
